@@ -151,7 +151,8 @@ Section Idx.
   | ISaveReload
   | ILock                                 (* bip44 Lock: addresses untouched, later ones derived publicly *)
   | IUnlock                               (* bip44 Unlock: secrets restored / synced, addresses untouched *)
-  | IFailed.                              (* an operation that returned an error: no effect *)
+  | IFailed                               (* an operation that returned an error: no effect *)
+  | INewAccount.                          (* bip44 NewAccount: two more (empty) chains, external and change *)
 
   (* a failing op (chain out of range) leaves the wallet unchanged *)
   Definition i_step (w : iwallet) (o : iop) : iwallet :=
@@ -162,9 +163,10 @@ Section Idx.
     | ILock => w
     | IUnlock => w
     | IFailed => w
+    | INewAccount => w ++ [[]; []]
     end.
   Definition i_effective (o : iop) : bool :=
-    match o with IGen _ _ | IScan _ _ => true | _ => false end.
+    match o with IGen _ _ | IScan _ _ | INewAccount => true | _ => false end.
   Definition i_run (ops : list iop) (w : iwallet) : iwallet := fold_left i_step ops w.
   Fixpoint i_trace (ops : list iop) (w : iwallet) : list iwallet :=
     match ops with
@@ -182,7 +184,44 @@ Section Idx.
 End Idx.
 
 Arguments IGen {K} j n. Arguments IScan {K} n act. Arguments ISaveReload {K}.
-Arguments ILock {K}. Arguments IUnlock {K}. Arguments IFailed {K}. Arguments i_effective {K} o.
+Arguments ILock {K}. Arguments IUnlock {K}. Arguments IFailed {K}. Arguments INewAccount {K}. Arguments i_effective {K} o.
+
+(* ------------------------------------------------------------ coin type *)
+(* The wallet's coin type selects the text form of its addresses (Skycoin base58
+   or Bitcoin base58 with its version byte) and, for bip44, the coin number of the
+   derivation path. It is part of the wallet (meta "coin", bip44 account
+   coin_type, bip44 coin number) and every operation, save + reload included,
+   keeps it: derivation after any operation uses the wallet's own coin. *)
+Inductive coin := Skycoin | Bitcoin.
+Definition coin_eqb (a b : coin) : bool :=
+  match a, b with Skycoin, Skycoin | Bitcoin, Bitcoin => true | _, _ => false end.
+
+Section CoinIdx.
+  Variable K : Type.
+  Variable child : coin -> nat -> nat -> K.   (* coin, chain, index -> entry (address text included) *)
+  Record cwallet := { cw_coin : coin; cw_chains : iwallet K }.
+  Definition cw_step (w : cwallet) (o : iop K) : cwallet :=
+    {| cw_coin := cw_coin w; cw_chains := i_step K (child (cw_coin w)) (cw_chains w) o |}.
+  Definition cw_run (ops : list (iop K)) (w : cwallet) : cwallet := fold_left cw_step ops w.
+  Fixpoint cw_trace (ops : list (iop K)) (w : cwallet) : list cwallet :=
+    match ops with
+    | [] => []
+    | o :: r => let w' := cw_step w o in w' :: cw_trace r w'
+    end.
+End CoinIdx.
+Arguments cw_coin {K}. Arguments cw_chains {K}.
+
+Section CoinDet.
+  Variable S Sec K : Type.
+  Variable step : S -> S * Sec.
+  Variable key_of : coin -> Sec -> K.         (* the entry of a secret key in the coin's address form *)
+  Record cdwallet := { cd_coin : coin; cd_w : dwallet S Sec }.
+  Definition cd_step (w : cdwallet) (o : dop Sec) : cdwallet :=
+    {| cd_coin := cd_coin w; cd_w := d_step S Sec step (cd_w w) o |}.
+  Definition cd_run (ops : list (dop Sec)) (w : cdwallet) : cdwallet := fold_left cd_step ops w.
+  Definition cd_entries (w : cdwallet) : list K := map (key_of (cd_coin w)) (d_entries (cd_w w)).
+End CoinDet.
+Arguments cd_coin {S Sec}. Arguments cd_w {S Sec}.
 
 (* ------------------------------------------------------------ entries *)
 (* a wallet entry and its coherence: the address is the address of the public
